@@ -27,7 +27,8 @@ RULE = ("local stream: case = zones + cache contents + questions, a third of the
         "name only upstream knows, upstream cycles (through the question name, not through it, self-loops, across two zones, entered "
         "through a cached or local alias), chains of 29..40 links inside one upstream zone (one reply), alternating between two "
         "upstream zones (one resolution step per link), inside a local zone, and local or cached links followed by upstream links, a "
-        "local chain of 1100 links; same non-triviality rule")
+        "local chain of 1100 links, upstreams that contradict themselves about one alias from one reply to the next or against the "
+        "cache; same non-triviality rule")
 ASSUMPTIONS = [
     "all three modes are exercised by streams; the theorems listed cover chains whose links come from zones and the cache (the "
     "network-mode theorems recursive_chain_ok / forwarding_chain_ok are being added to Properties/C10.v separately and appear in "
@@ -39,6 +40,15 @@ ASSUMPTIONS = [
     "forwarder is modelled as one server holding every zone of the universe (Universe.serve): its answers are in chain order, "
     "except that for an alias cycle it repeats the cycle up to 64 records -- those replies are the ones not judged (counted in "
     "the evidence)",
+    "KNOWN FINDING alias-followed-twice-across-replies (known_findings.json, reported on every run; witnesses first in the "
+    "network-mode stream): 'no alias is followed twice' fails when two statements about one alias contradict each other across "
+    "sources the question stack does not connect -- two upstream replies (recursive), or the cache and a later upstream / "
+    "forwarder reply (both modes): the answer then lists the alias twice, with different targets, every link connecting.  The "
+    "oracle files a chain_ok failure under that class only in exactly that shape (links connect from the question name, tail of "
+    "the asked type at the last target, no identical record twice, the repeated owner's records have pairwise different "
+    "targets and no single upstream reply holds two of them) and still judges the rest of the case; an identical record "
+    "repeated, a broken link or a duplicate inside one reply are violations (repeated-record / chain-broken).  The stream "
+    "generates such upstreams on purpose (scenario `twoface`: the reply table of a case is computed from two universes)",
     "interpretation: 'chains longer than the recursion limit end in a partial chain or an error' is read as a bound on the work, "
     "not as a ban on complete answers: in the network modes each stage of the resolution follows up to 32 local links and hands the "
     "rest to the next stage (one question-stack slot each), so a 40-link chain inside a local zone is answered whole and in order "
@@ -107,6 +117,42 @@ def repeated(rrs):
     return None
 
 
+def followed_twice(c, r, qn, qt):
+    """The one recorded way in which chain_ok fails (known finding alias-followed-twice-across-replies), narrowly: the
+    CNAME records link up from the question name without a gap, the rest are records of the asked type at the last
+    target, no record occurs twice, some alias owner occurs more than once and its records have pairwise DIFFERENT
+    targets, and no single upstream reply of this resolution holds two of them -- they come from different replies,
+    or from the cache / a local zone and a later reply.  -> None (not that shape: an ordinary chain-broken) | text"""
+    from . import netgen, resolvergen as rg
+    from . import tok
+    rs = [tok.parse_rr(x) for x in r.rrs]
+    k = 0
+    cur = qn
+    while k < len(rs) and rs[k]["type"] == CNAME:
+        if rs[k]["name"] != cur:
+            return None
+        cur = rs[k]["data"][1:]
+        k += 1
+    if any(x["type"] != qt or x["name"] != cur for x in rs[k:]):
+        return None
+    by_owner = {}
+    for i in range(k):
+        by_owner.setdefault(rs[i]["name"], []).append(i)
+    multi = {o: ix for o, ix in by_owner.items() if len(ix) > 1}
+    if not multi:
+        return None
+    replies = [a for a in (netgen.reply_answers(c, e) for e in r.log) if a]
+    for o, ix in multi.items():
+        if len({rs[i]["data"] for i in ix}) != len(ix):
+            return None
+        if any(sum(1 for i in ix if r.rrs[i] in a) > 1 for a in replies):
+            return None
+    o, ix = sorted(multi.items())[0]
+    return ("alias %s is followed twice, to %s: the statements about it come from different upstream replies (or the cache and a "
+            "later reply) and contradict each other; every link of the returned chain connects"
+            % (rg.tokname(o), " and then ".join(rg.tokname(rs[i]["data"][1:]) for i in ix)))
+
+
 def net_oracle(case, impl, stats=None):
     """C10 on the implementation's output of one network-mode case.  Every question: the resolution completes
     (the driver survives: no hang, no stack overflow), within 60 s of virtual time.  Every successful reply: no record
@@ -126,6 +172,7 @@ def net_oracle(case, impl, stats=None):
             return None
         results, _ = parsed
         fwd = c.forwarder()
+        known = []
 
         def count(k):
             if stats is not None:
@@ -157,7 +204,13 @@ def net_oracle(case, impl, stats=None):
                 return ("repeated-record", "%s: the reply holds %s twice" % (what, x))
             why = rg.chain_ok(qn, qt, r.rrs)
             if why:
-                return ("chain-broken", "%s: %s" % (what, why))
+                twice = followed_twice(c, r, qn, qt)
+                if twice is None:
+                    return ("chain-broken", "%s: %s" % (what, why))
+                # known finding of C10 (known_findings.json); noted, and the rest of the case is still judged
+                known.append(("alias-followed-twice-across-replies", "%s: %s" % (what, twice)))
+        if known:
+            return known[0]
     except Exception:      # malformed output is a correspondence matter
         return None
     return None
